@@ -1,5 +1,6 @@
 """C10 -- incompatible aggregators are never merged silently."""
 import copy
+import math
 
 from harness import gen, hgm
 from harness.props import base
@@ -79,19 +80,25 @@ def mutate(r, g, spec):
             if new["k"] == k:
                 continue
             return set_at(s, path, new), "%s: %s -> %s" % ("/".join(map(str, path)), k, new["k"])
+        tiny = r.random() < 0.4          # the smallest possible difference: the neighbouring float
         if m == "num":
             node["num"] += r.choice([1, 2])
         elif m == "low":
-            node["low"] -= 0.5
+            node["low"] = math.nextafter(node["low"], -math.inf) if tiny else node["low"] - 0.5
         elif m == "high":
-            node["high"] += 0.5
+            node["high"] = math.nextafter(node["high"], math.inf) if tiny else node["high"] + 0.5
         elif m == "bw":
-            node["bw"] *= 2.0
+            node["bw"] = math.nextafter(node["bw"], math.inf) if tiny else node["bw"] * 2.0
         elif m == "origin":
-            node["origin"] += 0.25
+            node["origin"] = math.nextafter(node["origin"], math.inf) if tiny else node["origin"] + 0.25
         elif m == "centers":
-            node["centers"] = sorted(node["centers"])[:-1] + [max(node["centers"]) + 1.0] if r.random() < 0.5 \
-                else sorted(node["centers"]) + [max(node["centers"]) + 1.0]
+            c3 = r.random()
+            if c3 < 0.3:
+                # the same SET of centres, one of them twice
+                node["centers"] = sorted(list(node["centers"]) + [r.choice(list(node["centers"]))])
+            else:
+                node["centers"] = sorted(node["centers"])[:-1] + [max(node["centers"]) + 1.0] if c3 < 0.65 \
+                    else sorted(node["centers"]) + [max(node["centers"]) + 1.0]
         elif m == "edges":
             node["edges"] = list(node["edges"]) + [max(node["edges"]) + 1.0] if r.random() < 0.5 \
                 else [e + 0.125 for e in node["edges"]]
